@@ -1,46 +1,26 @@
-import MjProof.Props.C49
-import MjProof.Lemmas.Introspect
-import MjProof.Gen.IntrospectHeaders
-import MjProof.Gen.IntrospectPython
+import MjProof.Props.C49GenEnums
+import MjProof.Props.C49GenParse
+import MjProof.Props.C49GenStructs
+import MjProof.Props.C49GenFunctions
+import MjProof.Props.C49GenWf
 /-
 C49 (table half): the metadata shipped in python/mujoco/introspect/{enums,structs,functions}.py
 (`Gen/IntrospectPython.lean`, dumped from the imported modules) equals what the C compiler sees in
 include/mujoco (`Gen/IntrospectHeaders.lean`, from `clang -ast-dump=json` plus the header text).
 Both files are regenerated from the working tree on every run by translate/c49_tables.py; a
-disagreement makes the corresponding `decide +kernel` fail, i.e. this module stops compiling.
-
+disagreement makes the corresponding `decide +kernel` fail, i.e. one of the imported modules stops
+compiling:
+  C49GenEnums      enum_tables_equal
+  C49GenStructs    struct_tables_equal
+  C49GenFunctions  function_tables_equal
+  C49GenParse      header_type_strings_parse
+  C49GenWf         python_types_ok
 The statements about the generated tables are closed terms decided by kernel evaluation; texts are
 numerals (see Model/Introspect.lean), decoded by `dS` where the parser or printer is involved.
 -/
 namespace MjProof.C49
 open MjProof.CType MjProof.Introspect
 open MjProof.Gen
-
-/-- Every enum of the API: same name, same declaration name, same constants with the same values in
-    the same order, and the same enums in the same order, on both sides. -/
-theorem enum_tables_equal : IntrospectPython.enums = IntrospectHeaders.enums := by decide +kernel
-
-/-- Every type spelling of the headers (as clang prints it; array parameters as the header text spells
-    them) parses, with the model of `type_parsing.parse_type`, to the AST the translator computed. -/
-theorem header_type_strings_parse : tableParses IntrospectHeaders.typeTable = true := by decide +kernel
-
-/-- Every struct of the API: same members with the same types (ASTs), array extents and order,
-    anonymous struct/union nesting included. -/
-theorem struct_tables_equal :
-    mapMOpt (resolveStruct IntrospectHeaders.typeTable) IntrospectHeaders.structs = some IntrospectPython.structs := by
-  decide +kernel
-
-/-- Every function of the API: same return type, same parameters (name, type AST, nullability) in
-    the same order. -/
-theorem function_tables_equal :
-    mapMOpt (resolveFunc IntrospectHeaders.typeTable) IntrospectHeaders.functions = some IntrospectPython.functions := by
-  decide +kernel
-
-/-- The kernel-evaluated check behind `python_types_wf`: shapes of all shipped type ASTs, names of
-    their distinct value types. -/
-theorem python_types_ok :
-    typesOk (structTypes IntrospectPython.structs ++ funcTypes IntrospectPython.functions) = true := by
-  decide +kernel
 
 /-- Every type AST in the shipped struct and function tables is well formed … -/
 theorem python_types_wf :
